@@ -161,8 +161,8 @@ fn level_depths() -> Vec<usize> {
 /// One price level of EXACTLY `d` resting orders (volumes 1 / 2), `m` orders on the level behind it, and one
 /// aggressor that consumes the first level in one go: a code path that treats queues in blocks (batched sweeps,
 /// split_off, chunked iteration) is exercised at every block size, not only at the depths random histories reach.
-fn exhaustive_level_depths(name: &str) -> Part<Case> {
-    let depths = level_depths();
+fn exhaustive_level_depths(name: &str, tie: bool) -> Part<Case> {
+    let depths: Vec<usize> = if tie { level_depths().into_iter().filter(|d| *d <= 200 || *d == 256 || *d == 512).collect() } else { level_depths() };
     let n_d = depths.len() as u64;
     const BEHIND: [usize; 3] = [0, 1, 3];
     const KINDS: u64 = 6;
@@ -187,7 +187,10 @@ fn exhaustive_level_depths(name: &str) -> Part<Case> {
                 for k in 0..d {
                     let v = 1 + (k % 3 == 0) as u32;
                     sum += v;
-                    ops.push(Op::Advance(1));
+                    // tie variant: the whole level is queued at ONE timestamp
+                    if !tie {
+                        ops.push(Op::Advance(1));
+                    }
                     ops.push(Op::CreatePlace { bid: !agg_bid, vol: v, trader: (k % 4) as u32, price: Some(p1) });
                 }
                 for k in 0..m {
@@ -203,12 +206,61 @@ fn exhaustive_level_depths(name: &str) -> Part<Case> {
                     4 => Op::CreatePlace { bid: agg_bid, vol: sum + 1, trader: 9, price: None },
                     _ => Op::Modify { r: exact_ref(0), price: Some(p1), vol: Some(sum) },
                 });
-                Some(Case::Book(case_of(ops, false, true, 3)))
+                Some(Case::Book(case_of(ops, tie, true, 3)))
             }),
             description: format!(
-                "every queue depth d in 1..=260 and around 384, 512, 768, 1024 ({} depths) x {{0, 1, 3}} orders on the level behind x aggressor side x 6 aggressors (limit for exactly the level's volume, limit for more at the level's price, limit through to the next level, market for the level's volume, market for one more, resting order re-priced onto the level), then the drain probe",
+                "{}every queue depth d in 1..=260 and around 384, 512, 768, 1024 ({} depths) x {{0, 1, 3}} orders on the level behind x aggressor side x 6 aggressors (limit for exactly the level's volume, limit for more at the level's price, limit through to the next level, market for the level's volume, market for one more, resting order re-priced onto the level), then the drain probe",
+                if tie { "(whole level queued at one timestamp; depths up to 200 and 256, 512) " } else { "" },
                 n_d
             ),
+        },
+    }
+}
+
+/// A side of EXACTLY `n` occupied price levels (1 or 2 orders each) and one aggressor that sweeps all of them,
+/// all but one, or half of them in a single match: many fills from one incoming order, every level count 1..=160.
+fn exhaustive_level_counts(name: &str) -> Part<Case> {
+    const MAXN: u64 = 160;
+    const KINDS: u64 = 5;
+    let total = MAXN * 2 * KINDS;
+    Part {
+        name: name.to_string(),
+        kind: PartKind::Exhaustive {
+            total,
+            decode: Box::new(move |i| {
+                let kind = i % KINDS;
+                let i = i / KINDS;
+                let agg_bid = i % 2 == 0;
+                let n = (i / 2) as u32 + 1;
+                let base = 400u32;
+                // passive levels walk away from the touch: asks at base+1.., bids at base-1..
+                let level = |k: u32| if agg_bid { (base + 1 + k) * TICK } else { (base - 1 - k) * TICK };
+                let mut ops = vec![];
+                let mut vols: Vec<u32> = vec![];
+                for k in 0..n {
+                    let per = 1 + (k % 4 == 0) as u32;
+                    let mut lv = 0;
+                    for j in 0..per {
+                        let v = 1 + ((k + j) % 3) as u32;
+                        lv += v;
+                        ops.push(Op::Advance(1));
+                        ops.push(Op::CreatePlace { bid: !agg_bid, vol: v, trader: (k % 5) as u32, price: Some(level(k)) });
+                    }
+                    vols.push(lv);
+                }
+                let all: u32 = vols.iter().sum();
+                let half: u32 = vols.iter().take((n as usize + 1) / 2).sum();
+                ops.push(Op::Advance(1));
+                ops.push(match kind {
+                    0 => Op::CreatePlace { bid: agg_bid, vol: all, trader: 9, price: None },
+                    1 => Op::CreatePlace { bid: agg_bid, vol: all + 5, trader: 9, price: Some(level(n - 1)) },
+                    2 => Op::CreatePlace { bid: agg_bid, vol: all - 1, trader: 9, price: Some(level(n - 1)) },
+                    3 => Op::CreatePlace { bid: agg_bid, vol: half, trader: 9, price: None },
+                    _ => Op::CreatePlace { bid: agg_bid, vol: all, trader: 9, price: Some(level((n - 1) / 2)) },
+                });
+                Some(Case::Book(BookCase { tick: TICK, levels: 10, trading: true, t0: 0, tie: false, ops, drain: true }))
+            }),
+            description: "every number n in 1..=160 of occupied price levels on the passive side (1 or 2 orders per level) x aggressor side x 5 aggressors (market for everything, limit through the last level for more than everything, limit for all but one unit, market for the nearer half, limit for everything priced at the middle level), LEVELS 10, then the drain probe".to_string(),
         },
     }
 }
@@ -282,7 +334,8 @@ pub fn parts(id: &'static str, tier: Tier) -> Vec<Part<Case>> {
                 parts.push(exhaustive_core("exhaustive-core-tiefree-6", 6, &ADV1, false));
             }
             parts.push(exhaustive_core2("exhaustive-core-5-prices-3-volumes", tier.pick(3, 4), &ADV01, false, 5));
-            parts.push(exhaustive_level_depths("exhaustive-level-depths"));
+            parts.push(exhaustive_level_depths("exhaustive-level-depths", false));
+            parts.push(exhaustive_level_counts("exhaustive-level-counts"));
             let mut c = GenCfg::base(len);
             c.w_modify = 4;
             parts.push(random_part("random-dense", c.clone(), tier.pick(150_000, 3_000_000)));
@@ -308,7 +361,8 @@ pub fn parts(id: &'static str, tier: Tier) -> Vec<Part<Case>> {
                 }
             }
             parts.push(exhaustive_core2("exhaustive-core-5-prices-3-volumes", tier.pick(3, 4), &ADV01, false, if id == "C02" { 4 } else { 5 }));
-            parts.push(exhaustive_level_depths("exhaustive-level-depths"));
+            parts.push(exhaustive_level_depths("exhaustive-level-depths", false));
+            parts.push(exhaustive_level_counts("exhaustive-level-counts"));
             let mut c = GenCfg::base(len);
             c.w_modify = 14;
             c.w_trading = if id == "C02" { 2 } else { 3 };
@@ -368,6 +422,7 @@ pub fn parts(id: &'static str, tier: Tier) -> Vec<Part<Case>> {
         "C05" => {
             parts.push(exhaustive_core("exhaustive-core-ties", tier.pick(4, 5), &ADV01, true));
             parts.push(exhaustive_core2("exhaustive-core-ties-5-prices-3-volumes", tier.pick(3, 4), &ADV01, true, 5));
+            parts.push(exhaustive_level_depths("exhaustive-tied-level-depths", true));
             // re-queuing modification / reload inserted after every depth<=3 core with ties
             let prices = grid_prices();
             parts.push(exhaustive_tail(
